@@ -99,6 +99,8 @@ def run(rep: Report) -> None:
     rep.rule("R18.3", "LogarithmicUnit stores its reference unprefixed", floor=1)
     rep.rule("R18.4", "power_ratio is 2 exactly for root-power reference dimensions and 1 otherwise", floor=2)
     rep.rule("R18.5", "declared logarithm bases are > 1 (strictly increasing level)", floor=3)
+    rep.rule("R18.10", "a copy/pickle hook on Logarithm / LogarithmicUnit passes every argument its __new__ interns under (otherwise the copy lands on "
+             "another interned object, e.g. Bel for a decibel, and overwrites it)", floor=2)
     rep.rule("R18.9", "ROOT_POWER_DIMENSIONS has no entry written twice", floor=1)
     rep.rule("R18.8", "membership of the reference's dimension in ROOT_POWER_DIMENSIONS cannot go stale: interned classes hash by identity or over "
              "fields nothing assigns after construction (shared with C02 R02.11)", floor=5)
@@ -256,6 +258,8 @@ def run(rep: Report) -> None:
     interning_keys(rep, prog)
     from .c02 import stable_hash
     stable_hash(rep, prog, resolver, "R18.8")
+    from .c15 import newargs_cover_key
+    newargs_cover_key(rep, prog, "R18.10", ("Logarithm", "LogarithmicUnit"), required=False)
     rep.assume("in_unit is value-preserving (C04); ln/exp are inverse; B > 1")
     rep.not_decided.append("floating-point rounding of the (algebraically verified) formulas; Level.__add__/__sub__ (not part of the property)")
     rep.trust("mypy 2.3.1 expression types; E4 normal forms with ln/exp heads")
